@@ -207,6 +207,7 @@ def run(rep, progs, tier):
     rep.rule("C18.order", "password write -> receive -> accepted edge dominate the spawn; nothing else written before/after")
     rep.rule("C18.verdict", "any ACK => IncorrectPassword; close => UnexpectedEof")
     rep.rule("C18.greeting-loop", "version verbatim from the parser; Ok leaves the loop")
+    rep.rule("C18.greeting-input", "the greeting parser is offered only received bytes (no buffer padding) in both flavours")
     rep.rule("C18.greeting-grammar", "'OK MPD ' + non-empty non-LF version + LF")
     rep.rule("C18.version", "Client::protocol_version derives from the connection's version")
     rep.trusted = ["rustc MIR construction", "mpdfacts exporter", "tokio::spawn semantics", "MPD greeting format"]
@@ -214,3 +215,7 @@ def run(rep, progs, tier):
         if cfg != "K3":
             order_rule(rep, prog, cfg)
         greeting_rules(rep, prog, cfg)
+        from .C02 import valid_prefix_rule
+        from .C10 import READS
+        READS.bind(prog)
+        valid_prefix_rule(rep, prog, cfg, rule="C18.greeting-input", which=("blocking/connect", "async/connect"))
